@@ -536,7 +536,7 @@ func cmdCheck(args []string) int {
 	}
 	cfg := tierCfg{hang: 8 * time.Second, minim: 250, maxWall: 100 * time.Second}
 	if *tier == "thorough" {
-		cfg = tierCfg{hang: 20 * time.Second, minim: 1500, maxWall: 25 * time.Minute}
+		cfg = tierCfg{hang: 20 * time.Second, minim: 1500, maxWall: 15 * time.Minute}
 	}
 	if *maxWall > 0 {
 		cfg.maxWall = *maxWall
@@ -1434,6 +1434,11 @@ func writeEvidence(prop, tier string, seed uint64, a *agg, wall, genWall float64
 	os.MkdirAll(filepath.Join(root, "evidence"), 0o755)
 	b, _ := json.MarshalIndent(ev, "", " ")
 	os.WriteFile(filepath.Join(root, "evidence", prop+".json"), b, 0o644)
+	if tier == "thorough" {
+		// the quick tier rewrites evidence/<id>.json on every change: keep the last deep run beside it
+		os.MkdirAll(filepath.Join(root, "evidence", "thorough"), 0o755)
+		os.WriteFile(filepath.Join(root, "evidence", "thorough", prop+".json"), b, 0o644)
+	}
 }
 
 type propMeta struct {
